@@ -76,6 +76,14 @@ def cmd_replay(prop, path, quiet):
         return 0
     plan = doc['plan'] if 'plan' in doc else doc
     ad.prepare_replay() if hasattr(ad, 'prepare_replay') else None
+    if str(doc.get('finding_key', '')).startswith('CRASH:'):
+        got = crash_check(ad, plan)
+        if got == doc['finding_key']:
+            print('REPRODUCED key=%s (the isolated process died again)' % got)
+            print('VIOLATION property=%s replay=%s' % (prop, path))
+            return 1
+        print('replay: the run completed without a fault signal')
+        return 0
     r = ad.execute_full(plan)
     want = doc.get('finding_key')
     vs = r.get('violations') or []
@@ -137,6 +145,18 @@ def determinism_join(h):
     ok = res['0'] == res['4242']
     diff = [i for i, (a, b) in enumerate(zip(res['0'], res['4242'])) if a != b]
     return {'runs': h['count'], 'interpreters': 2, 'hashseeds': [0, 4242], 'identical': ok, 'first_diffs': diff[:5]}
+
+
+def crash_check(ad, plan):
+    """Execute the plan in an isolated child; return 'CRASH:<SIGNAL>' if the child dies of a fault signal."""
+    from sim import isolate
+    try:
+        ad.execute_isolated(plan)
+    except isolate.ChildFailed as e:
+        if e.signal in isolate.CRASH_SIGNALS:
+            return 'CRASH:' + isolate.CRASH_SIGNALS[e.signal]
+        raise
+    return None
 
 
 def hashseed_probe(prop, tier, i):
@@ -224,6 +244,19 @@ def cmd_check(prop, tier, nruns_override=None, workers=None, selftest=True):
         if key in seen_keys or len(reported) >= 3:
             continue
         seen_keys.add(key)
+        if key.startswith('CRASH:'):
+            crashed = crash_check(ad, v['plan'])
+            if crashed != key:
+                print('HARNESS-ERROR run %d crashed once (%s) but not when re-executed in isolation' % (v['i'], key))
+                write_evidence(prop, tier, base, ad, agg, det, [], [], time.time() - t0, status='harness_error')
+                return 2
+            rs = core.run_seed(prop, base, v['i'])
+            os.makedirs(os.path.join(core.OUT_DIR, 'replays'), exist_ok=True)
+            path = os.path.join(core.OUT_DIR, 'replays', '%s-%d-crash.json' % (prop, rs))
+            core.jdump({'property': prop, 'base_seed': base, 'run_index': v['i'], 'run_seed': rs, 'finding_key': key,
+                        'violation': v['violation'], 'readable': ad.describe(v['plan']), 'plan': v['plan']}, path)
+            reported.append({'i': v['i'], 'key': key, 'path': path, 'violation': v['violation']})
+            continue
         small = ad.shrink(v['plan'], v['violation'], time.time() + 60)
         r = ad.execute_isolated(small)
         hit = [x for x in r['violations'] if x['key'] == key]
